@@ -546,13 +546,15 @@ class Library:
             return I.mk([buf, n], 'Vec')
 
         def seq_len(items):
-            n = 0
+            if Guarded not in map(type, items):
+                return len(items)
+            plain, n = 0, 0
             for it in items:
                 if type(it) is Guarded:
                     n = T.add(64, n, T.ite(64, it.cond, seq_len(it.items), 0))
                 else:
-                    n = T.add(64, n, 1)
-            return n
+                    plain += 1
+            return T.add(64, n, plain) if type(n) is not int else n + plain
         self.seq_len = seq_len
 
         @reg(r'^Vec::<.*>::len$', 'Vec::len')
